@@ -304,6 +304,12 @@ theorem C20_parseJson_exact_partial :
     (∀ (s : List Nat) (v : Rsj.Json.JVal), Rsj.Json.parseJson s = .ok v → NoDupKeys v) :=
   ⟨parseJson_escJson, fun _ _ h => parseJson_noDup h⟩
 
+/-! Non-vacuity: the hypothesis `parseJson s = .ok v` is satisfiable (closed evaluation of
+    the parser model inside Lean is too slow to be used as an example; the general
+    theorem provides the instance). -/
+example : ∃ s v, Rsj.Json.parseJson s = .ok v ∧ NoDupKeys v :=
+  ⟨escJson [97, 34, 10], .str [97, 34, 10], (C20_parseJson_inverts_escape _).1, .str _⟩
+
 /-! Non-vacuity for the lossy decoder: `61 E1 80 | C0 | F0 90 80 | 41` is `a`, one U+FFFD
     for the truncated three-byte sequence, one for the invalid lead, one for the
     truncated four-byte sequence, then `A`. -/
